@@ -333,9 +333,27 @@ package mhprimary
 //@   internal ensures @C02-cursors-agree-at-end-of-last-file err == nil ==> mp.length == gend && mp.recPos == mp.length && mp.recFileNum == mp.fileNum && mp.file.$open && len(mp.nextPool.blocks) == 0 && len(mp.curPool.blocks) == 0
 //@   ensures @failed err != nil ==> mp == nil
 
-//@ func upgradePrimary(ctx context.Context, filePath string, headerPath string, maxFileSize uint32, freeList *freelist.FreeList) (last uint32, err error)
-//@   trusted T5 contract pending: converts a legacy single-file primary (chunkOldPrimary is under contract); no-op when there is none
-//@   modifies heap("freelist.FreeList"), ctx.$done
+// upgradePrimary (C10): the resume discipline of the legacy primary conversion - nothing happens
+// when a header exists; the freelist is applied to the old file before it is chunked; the
+// header, which marks the conversion as done, is written only after chunking succeeded; the old
+// file is removed only after the header was written. An interruption before the header leaves
+// the old file untouched by chunking (the chunks are recreated truncated), so running again
+// gives the same result.
+//@ func upgradePrimary(ctx context.Context, filePath string, headerPath string, maxFileSize uint32, freeList *freelist.FreeList) (last uint32, err error)  property C10
+//@   requires maxFileSize > 0
+//@   modifies heap("freelist.FreeList"), fp(IO), heap("bufio."), ctx.$done
+//@   ghost var gheader bool = false
+//@   ghost var gchunked bool = false
+//@   ghost var gnoheader bool = false
+//@   ghost at after call os.IsNotExist#0: gnoheader = $r0
+//@   ghost at after call mhprimary.chunkOldPrimary#0: gchunked = ($r1 == nil)
+//@   ghost at after call mhprimary.writeHeader#0: gheader = ($r0 == nil)
+//@   assert at before call os.Stat#0: @checks-header-first $a0 == headerPath
+//@   assert at before call mhprimary.applyFreeList#0: @freelist-before-chunking gnoheader && !gchunked && $a2 == filePath
+//@   assert at before call mhprimary.chunkOldPrimary#0: @only-without-header gnoheader && $a1 == filePath && $a2 == maxFileSize
+//@   assert at before call mhprimary.writeHeader#0: @header-after-chunking gchunked && $a0 == headerPath && $a1.MaxFileSize == maxFileSize
+//@   assert at before call os.Remove#0: @old-file-removed-last gheader && $a0 == filePath
+//@   internal ensures @nothing-when-header-exists !gnoheader ==> last == 0 && event("call:mhprimary.chunkOldPrimary") == 0 && event("call:mhprimary.applyFreeList") == 0 && event("call:mhprimary.writeHeader") == 0 && event("call:os.Remove") == 0
 
 //@ func findLastPrimary(basePath string, fileNum uint32) (last uint32, err error)  property C02
 //@   ghost var gfound int = 0
